@@ -35,6 +35,15 @@ var interpretAllow = []string{
 	"internal/itoa", "io/fs", "bufio", "encoding/hex", "encoding/base64", "text/tabwriter",
 }
 
+// single pure functions of non-interpretable packages that are executed symbolically
+var interpretFuncs = map[string]bool{
+	"(encoding/asn1.ObjectIdentifier).Equal": true,
+	"(net.IP).To4":                           true,
+	"net.isZeros":                            true,
+	"(net.IP).Equal":                         true,
+	"net.bytesEqual":                         true,
+}
+
 // packages whose package-level variable initialisers are run although their functions are stubbed.
 var initOnly = map[string]bool{"context": true}
 
